@@ -128,6 +128,12 @@ enum Step {
     /// SHOW (+ QUERY); `twice`: SHOW again; `barrier`: the harness waits for flushes itself first
     Show { name: usize, twice: bool, barrier: bool },
     Query { spec: Spec },
+    /// SHOW whose client went away: every write of the response fails (the frames of the delta are
+    /// stored, the catalog entry is not rewritten)
+    ShowBrokenPipe { name: usize },
+    /// FLUSH, then SHOW killed at the first byte of its response (frames and manifest durable,
+    /// catalog entry not rewritten), then a restart on the same directories
+    ShowCrash { name: usize },
 }
 
 /// what goes into the model's input line (ids are filled in at the end)
@@ -144,6 +150,8 @@ struct Mat {
     stored_above_mark: BTreeSet<u64>,
     /// key -> (mark when the event was applied, number of frames then); only events applied after REMEMBER
     late: BTreeMap<u64, (Option<(u64, u64)>, usize)>,
+    /// an interrupted SHOW stored frames without rewriting the catalog entry
+    catalog_may_lag: bool,
 }
 
 struct World {
@@ -211,7 +219,7 @@ fn lex_gt(a: (u64, u64), b: (u64, u64)) -> bool {
 impl World {
     fn start(root: &Path, cfg: &SysCfg, per_shard: usize) -> World {
         let _ = std::fs::remove_dir_all(root);
-        let mut s = Session::start(root, cfg);
+        let mut s = start_session(root, cfg);
         let r = s.cmd("DEFINE ev FIELDS { k: \"int\", x: \"int\" }");
         assert!(r.map(|r| r.ok()).unwrap_or(false), "DEFINE failed");
         // `per_shard` contexts per shard; within a shard the index order is the order of the names
@@ -294,6 +302,8 @@ impl World {
             Step::RememberInWindow { .. } => "op:remember_in_window",
             Step::Show { .. } => "op:show",
             Step::Query { .. } => "op:query",
+            Step::ShowBrokenPipe { .. } => "op:show_broken_pipe",
+            Step::ShowCrash { .. } => "op:show_crash",
         });
         match step {
             Step::Store { ctx, x, ts, ms, nosync } => {
@@ -349,7 +359,7 @@ impl World {
                 self.await_flush();
                 let ok = self.s.shutdown();
                 assert!(ok, "shutdown reported errors");
-                self.s = Session::start(&self.root, &self.cfg);
+                self.s = start_session(&self.root, &self.cfg);
                 for sh in 0..self.cfg.shards {
                     self.flush_tok(sh);
                 }
@@ -423,6 +433,34 @@ impl World {
             Step::Query { spec } => {
                 let _ = self.query(spec);
             }
+            Step::ShowBrokenPipe { name } => {
+                self.await_flush();
+                let mname = format!("m{name}");
+                let v = self.s.ctl(json!({"ctl":"show_cut","name":mname,"mode":"pipe"})).expect("child died");
+                assert!(v["ok"].as_bool().unwrap_or(false), "show_cut failed: {v}");
+                self.after_cut_show(*name);
+            }
+            Step::ShowCrash { name } => {
+                // everything durable in segments first (a kill loses what only the memtable holds:
+                // C01's subject, not this check's)
+                self.await_flush();
+                let r = self.s.cmd("FLUSH");
+                assert!(r.map(|r| r.ok()).unwrap_or(false), "FLUSH failed");
+                for sh in 0..self.cfg.shards {
+                    self.flush_tok(sh);
+                }
+                let mname = format!("m{name}");
+                let known = self.mats.contains_key(name);
+                let v = self.s.ctl(json!({"ctl":"show_cut","name":mname,"mode":"abort"}));
+                if known {
+                    assert!(v.is_none(), "the child survived a SHOW into the aborting writer: {v:?}");
+                }
+                if v.is_none() {
+                    self.tally("show_killed");
+                    self.s = start_session(&self.root, &self.cfg);
+                }
+                self.after_cut_show(*name);
+            }
         }
     }
 
@@ -448,7 +486,7 @@ impl World {
                         // (a surplus copy of rows was finding C14-remember-in-flush-window, fixed by f1fe52c)
                         self.fails.push(("-".into(), format!("REMEMBER {mname} stored {} but the selection is {}", keys_str(&got), keys_str(&want))));
                     }
-                    self.mats.insert(name, Mat { spec: spec.clone(), frames, mark, stored_above_mark: BTreeSet::new(), late: BTreeMap::new() });
+                    self.mats.insert(name, Mat { spec: spec.clone(), frames, mark, stored_above_mark: BTreeSet::new(), late: BTreeMap::new(), catalog_may_lag: false });
                 } else if r.message.contains("already exists") {
                     line = "rem:dup".to_string();
                     self.checks += 1;
@@ -478,6 +516,10 @@ impl World {
         let r = self.s.cmd("QUERY ev RETURN [k]").expect("child died");
         self.learn_ids(&r);
         let Some(m) = self.mats.get(&name) else { return };
+        if m.catalog_may_lag {
+            // after an interrupted SHOW the catalog entry legitimately lags behind the manifest
+            return;
+        }
         let mk = m.mark.unwrap_or((0, 0));
         let mut above = vec![];
         for k in m.frames.iter().flatten() {
@@ -495,6 +537,61 @@ impl World {
         }
         let m = self.mats.get_mut(&name).unwrap();
         m.stored_above_mark.extend(above);
+    }
+
+    /// bookkeeping after an interrupted SHOW: frames may have been appended, the catalog entry is
+    /// whatever it was
+    fn after_cut_show(&mut self, name: usize) {
+        let mname = format!("m{name}");
+        if !self.mats.contains_key(&name) {
+            self.toks.push(Tok::Raw(format!("CUT {name} -")));
+            self.obs.push("cut:unknown".into());
+            return;
+        }
+        let (frames, mark) = read_materialization(&self.root, &mname).expect("read materialization");
+        let old = self.mats[&name].frames.len();
+        let newf: Vec<Vec<u64>> = frames[old.min(frames.len())..].to_vec();
+        if frames.len() < old || frames[..old] != self.mats[&name].frames[..] {
+            self.fails.push(("-".into(), format!("interrupted SHOW {mname}: stored frames changed")));
+        }
+        if !newf.is_empty() {
+            self.tally("cut_show_stored_frames");
+            self.mats.get_mut(&name).unwrap().catalog_may_lag = true;
+        }
+        if mark != self.mats[&name].mark {
+            self.tally("cut_show_updated_catalog");
+        }
+        self.toks.push(Tok::Raw(format!("CUT {name} {}", frames_str(&newf))));
+        self.obs.push(format!("cut:mark={}", mark_str(mark)));
+        let m = self.mats.get_mut(&name).unwrap();
+        m.frames = frames;
+        m.mark = mark;
+        // note: the catalog mark may now be below stored rows; what matters is the manifest's
+        self.learn_all_ids();
+    }
+
+    /// lexicographic maximum over the frames of (max second, max id) of the frame
+    fn manifest_mark(&self, frames: &[Vec<u64>]) -> (u64, u64) {
+        let mut mk = (0u64, 0u64);
+        for f in frames {
+            let (mut t, mut i) = (0u64, 0u64);
+            for k in f {
+                if let Some((a, b)) = self.pos(*k) {
+                    t = t.max(a);
+                    i = i.max(b);
+                }
+            }
+            if (t, i) > mk {
+                mk = (t, i);
+            }
+        }
+        mk
+    }
+
+    fn learn_all_ids(&mut self) {
+        self.await_flush();
+        let r = self.s.cmd("QUERY ev RETURN [k]").expect("child died");
+        self.learn_ids(&r);
     }
 
     fn show_once(&mut self, name: usize) -> Option<Vec<u64>> {
@@ -583,8 +680,10 @@ impl World {
         for k in &missing {
             // never shown: explained iff it was applied after a mark it is not above
             let c = match (m.late.get(k), self.pos(*k)) {
-                (Some((mark_then, nframes)), Some(p)) => {
-                    let mk = mark_then.unwrap_or((0, 0));
+                (Some((_catalog_mark_then, nframes)), Some(p)) => {
+                    // the mark the delta filter uses is the manifest's: the running maximum of the
+                    // frame marks (= the catalog's unless a SHOW was interrupted)
+                    let mk = self.manifest_mark(&m.frames[..*nframes]);
                     if lex_gt(p, mk) {
                         "-"
                     } else {
@@ -732,6 +831,9 @@ fn gen_mixed_segment(r: &mut Rng, cfg: &SysCfg, per_shard: usize) -> Vec<Step> {
         if r.chance(1, 4) {
             steps.push(Step::Backdate);
         }
+        if r.chance(1, 5) {
+            steps.push(if r.chance(2, 3) { Step::ShowBrokenPipe { name: 0 } } else { Step::ShowCrash { name: 0 } });
+        }
         steps.push(Step::Show { name: 0, twice: r.chance(1, 2), barrier: true });
         // an old-second row on the largest context again, so that the next segment's last zone is old
         if r.chance(1, 2) {
@@ -829,6 +931,16 @@ fn gen_history(r: &mut Rng, cfg: &SysCfg, nctx_per_shard: usize) -> Vec<Step> {
             steps.push(Step::Show { name: 7, twice: false, barrier: true }); // unknown name
         }
         let name = if nmats > 1 && round >= 1 && r.chance(1, 2) { 1 } else { 0 };
+        // an earlier SHOW that stored its delta and never rewrote the catalog entry
+        match r.below(12) {
+            0 | 1 => steps.push(Step::ShowBrokenPipe { name }),
+            2 => steps.push(Step::ShowCrash { name }),
+            3 => {
+                steps.push(Step::ShowBrokenPipe { name });
+                steps.push(Step::ShowBrokenPipe { name });
+            }
+            _ => {}
+        }
         steps.push(Step::Show { name, twice: r.chance(1, 2), barrier: r.chance(1, 2) });
         if r.chance(1, 6) {
             steps.push(Step::Query { spec: gen_spec(r, nctx, clk.ts) });
@@ -856,7 +968,7 @@ fn fix_restart_clock(steps: &mut [Step]) {
     let mut floor = 0u64;
     for s in steps.iter_mut() {
         match s {
-            Step::Restart => floor = maxms + 1,
+            Step::Restart | Step::ShowCrash { .. } => floor = maxms + 1,
             Step::Store { ms, .. } => {
                 if *ms < floor {
                     *ms = floor;
@@ -1055,6 +1167,42 @@ fn witnesses() -> Vec<(&'static str, SysCfg, usize, Vec<Step>)> {
                 Step::Show { name: 0, twice: true, barrier: true },
             ],
         ),
+        // an earlier SHOW stored its delta but its client had gone: the catalog entry lags behind the
+        // manifest; the next SHOW must not fetch the stored rows again
+        (
+            "show-after-broken-pipe",
+            SysCfg { shards: 2, event_per_zone: 2, fill_factor: 2, ..Default::default() },
+            2,
+            vec![
+                Step::Store { ctx: 0, x: 1, ts: 1, ms: 10, nosync: false },
+                Step::Store { ctx: 2, x: 1, ts: 1, ms: 20, nosync: false },
+                Step::Remember { name: 0, spec: all.clone() },
+                Step::Store { ctx: 0, x: 1, ts: 2, ms: 30, nosync: false },
+                Step::Store { ctx: 2, x: 1, ts: 3, ms: 40, nosync: false },
+                Step::ShowBrokenPipe { name: 0 },
+                Step::Show { name: 0, twice: true, barrier: true },
+                Step::Store { ctx: 0, x: 1, ts: 4, ms: 50, nosync: false },
+                Step::Show { name: 0, twice: true, barrier: true },
+            ],
+        ),
+        // the same with the process killed between the last frame append and the catalog update
+        (
+            "show-after-crash-before-catalog-update",
+            SysCfg { shards: 2, event_per_zone: 2, fill_factor: 2, ..Default::default() },
+            2,
+            vec![
+                Step::Store { ctx: 0, x: 1, ts: 1, ms: 10, nosync: false },
+                Step::Store { ctx: 2, x: 1, ts: 1, ms: 20, nosync: false },
+                Step::Flush,
+                Step::Remember { name: 0, spec: all.clone() },
+                Step::Store { ctx: 0, x: 1, ts: 2, ms: 30, nosync: false },
+                Step::Store { ctx: 2, x: 1, ts: 3, ms: 40, nosync: false },
+                Step::ShowCrash { name: 0 },
+                Step::Show { name: 0, twice: true, barrier: true },
+                Step::Store { ctx: 0, x: 1, ts: 4, ms: 1000, nosync: false },
+                Step::Show { name: 0, twice: true, barrier: true },
+            ],
+        ),
         // duplicate name, unknown name
         (
             "names",
@@ -1071,7 +1219,168 @@ fn witnesses() -> Vec<(&'static str, SysCfg, usize, Vec<Step>)> {
     ]
 }
 
+// ------------------------------------------------------------------------------ own child
+//
+// Private copy of the session child of harness/src/sys.rs (same JSON line protocol, so the parent
+// side `Session` is used unchanged) with one more request: `{"ctl":"show_cut","name":..,"mode":..}`
+// runs `SHOW name` through the public dispatcher into a response writer that fails
+// (`pipe`: every write returns BrokenPipe — the client went away) or kills the process at the
+// first byte pushed to the socket (`abort`). SHOW buffers its response (64 KiB) and touches the
+// writer only in its final flush: after every delta frame and the manifest are durable, before
+// the catalog entry is rewritten.
+
+struct BrokenPipe;
+impl tokio::io::AsyncWrite for BrokenPipe {
+    fn poll_write(self: std::pin::Pin<&mut Self>, _cx: &mut std::task::Context<'_>, _buf: &[u8]) -> std::task::Poll<std::io::Result<usize>> {
+        std::task::Poll::Ready(Err(std::io::ErrorKind::BrokenPipe.into()))
+    }
+    fn poll_flush(self: std::pin::Pin<&mut Self>, _cx: &mut std::task::Context<'_>) -> std::task::Poll<std::io::Result<()>> {
+        std::task::Poll::Ready(Ok(()))
+    }
+    fn poll_shutdown(self: std::pin::Pin<&mut Self>, _cx: &mut std::task::Context<'_>) -> std::task::Poll<std::io::Result<()>> {
+        std::task::Poll::Ready(Ok(()))
+    }
+}
+struct DieOnWrite;
+impl tokio::io::AsyncWrite for DieOnWrite {
+    fn poll_write(self: std::pin::Pin<&mut Self>, _cx: &mut std::task::Context<'_>, _buf: &[u8]) -> std::task::Poll<std::io::Result<usize>> {
+        std::process::abort();
+    }
+    fn poll_flush(self: std::pin::Pin<&mut Self>, _cx: &mut std::task::Context<'_>) -> std::task::Poll<std::io::Result<()>> {
+        std::task::Poll::Ready(Ok(()))
+    }
+    fn poll_shutdown(self: std::pin::Pin<&mut Self>, _cx: &mut std::task::Context<'_>) -> std::task::Poll<std::io::Result<()>> {
+        std::task::Poll::Ready(Ok(()))
+    }
+}
+
+fn maybe_own_child() {
+    if std::env::var("SNEL_SYS_CHILD").as_deref() != Ok("1") || std::env::var("C14_CHILD").as_deref() != Ok("1") {
+        return;
+    }
+    let rt = tokio::runtime::Builder::new_multi_thread().worker_threads(6).enable_all().build().unwrap();
+    rt.block_on(own_child_main());
+    std::process::exit(0);
+}
+
+async fn own_child_main() {
+    use snel_db::command::dispatcher::dispatch_command;
+    use snel_db::command::parser::parse_command;
+    use snel_db::engine::schema::SchemaRegistry;
+    use snel_db::engine::shard::manager::ShardManager;
+    use snel_db::shared::config::CONFIG;
+    use snel_db::shared::response::json::JsonRenderer;
+    use std::io::{BufRead, Write};
+    use std::sync::Arc;
+    use tokio::sync::RwLock;
+
+    let registry = Arc::new(RwLock::new(SchemaRegistry::new().expect("schema registry")));
+    let sm = Arc::new(ShardManager::new(CONFIG.engine.shard_count, PathBuf::from(&CONFIG.engine.data_dir), PathBuf::from(&CONFIG.wal.dir)).await);
+    let stdin = std::io::stdin();
+    let mut out = std::io::stdout();
+    writeln!(out, "{}", json!({"ready": true})).unwrap();
+    out.flush().unwrap();
+    let mut line = String::new();
+    loop {
+        line.clear();
+        if stdin.lock().read_line(&mut line).unwrap_or(0) == 0 {
+            break;
+        }
+        let req: serde_json::Value = match serde_json::from_str(&line) {
+            Ok(v) => v,
+            Err(e) => {
+                writeln!(out, "{}", json!({"error": format!("bad request: {e}")})).unwrap();
+                out.flush().unwrap();
+                continue;
+            }
+        };
+        let reply = if let Some(cmd) = req.get("cmd").and_then(|c| c.as_str()) {
+            match std::panic::catch_unwind(|| parse_command(cmd)) {
+                Err(_) => json!({"parse": "panic"}),
+                Ok(Err(e)) => json!({"parse": "error", "msg": format!("{e:?}")}),
+                Ok(Ok(c)) => {
+                    let mut buf: Vec<u8> = Vec::new();
+                    let (sm2, reg2) = (Arc::clone(&sm), Arc::clone(&registry));
+                    let h = tokio::spawn(async move {
+                        let r = dispatch_command(&c, &mut buf, &sm2, &reg2, None, Some("bypass"), &JsonRenderer).await;
+                        (r.is_ok(), buf)
+                    });
+                    match h.await {
+                        Ok((ok, buf)) => json!({"parse": "ok", "io_ok": ok, "out": String::from_utf8_lossy(&buf)}),
+                        Err(e) => json!({"parse": "ok", "dispatch": "panic", "msg": e.to_string()}),
+                    }
+                }
+            }
+        } else if let Some(ctl) = req.get("ctl").and_then(|c| c.as_str()) {
+            match ctl {
+                "store_now" => {
+                    snel_db::verif::set_store_now_secs(req["secs"].as_u64());
+                    json!({"ok": true})
+                }
+                "id_clock" => {
+                    match req["readings"].as_array() {
+                        Some(a) => snel_db::verif::set_id_clock(a.iter().filter_map(|x| x.as_u64()).collect()),
+                        None => snel_db::verif::clear_id_clock(),
+                    }
+                    json!({"ok": true})
+                }
+                "compact" => {
+                    let id = req["shard"].as_u64().unwrap_or(0) as usize;
+                    match snel_db::verif::compact_now(id).await {
+                        Ok(ran) => json!({"ok": true, "ran": ran}),
+                        Err(e) => json!({"ok": false, "error": e}),
+                    }
+                }
+                "route" => json!({"shard": sm.get_shard(req["ctx"].as_str().unwrap_or("")).id}),
+                "await_flush" => {
+                    let errs = sm.wait_for_flush_completion().await;
+                    json!({"ok": errs.is_empty(), "errors": format!("{errs:?}")})
+                }
+                "show_cut" => {
+                    let name = req["name"].as_str().unwrap_or("").to_string();
+                    let abort = req["mode"].as_str() == Some("abort");
+                    match parse_command(&format!("SHOW {name}")) {
+                        Err(e) => json!({"ok": false, "error": format!("{e:?}")}),
+                        Ok(c) => {
+                            let (sm2, reg2) = (Arc::clone(&sm), Arc::clone(&registry));
+                            let h = tokio::spawn(async move {
+                                if abort {
+                                    dispatch_command(&c, &mut DieOnWrite, &sm2, &reg2, None, Some("bypass"), &JsonRenderer).await.is_ok()
+                                } else {
+                                    dispatch_command(&c, &mut BrokenPipe, &sm2, &reg2, None, Some("bypass"), &JsonRenderer).await.is_ok()
+                                }
+                            });
+                            match h.await {
+                                Ok(io_ok) => json!({"ok": true, "io_ok": io_ok}),
+                                Err(e) => json!({"ok": false, "error": e.to_string()}),
+                            }
+                        }
+                    }
+                }
+                "shutdown" => {
+                    let e1 = sm.flush_all(Arc::clone(&registry)).await;
+                    let e2 = sm.shutdown_all().await;
+                    writeln!(out, "{}", json!({"ok": e1.is_empty() && e2.is_empty(), "errors": format!("{e1:?} {e2:?}")})).unwrap();
+                    out.flush().unwrap();
+                    tokio::time::sleep(std::time::Duration::from_millis(100)).await;
+                    std::process::exit(0);
+                }
+                _ => json!({"error": "unknown ctl"}),
+            }
+        } else {
+            json!({"error": "unknown request"})
+        };
+        writeln!(out, "{reply}").unwrap();
+        out.flush().unwrap();
+    }
+}
+
+fn start_session(root: &Path, cfg: &SysCfg) -> Session {
+    Session::start_env(root, cfg, &[("C14_CHILD", "1".to_string())])
+}
+
 fn main() {
+    maybe_own_child();
     sys::maybe_child();
     let a = parse_args();
     // the parent reads catalog / frame files through snel_db's own readers
